@@ -83,14 +83,21 @@ func (g *gen) hdr(typ string, sec int64, msec int, seq uint32) string {
 	return fmt.Sprintf("type=%s msg=audit(%d.%03d:%d): ", typ, sec, msec, seq)
 }
 
+// enrichedLogin makes the generator append the ENRICHED-format suffix (0x1d, then the
+// resolved names) also to records whose last field is the unquoted result (LOGIN).
+// go-libaudit does not know the separator: it reads "res=1\x1dUID=" as the result, which
+// is not a success spelling (finding reported with C14; off by default).
+var enrichedLogin = false
+
 func (g *gen) enrich(s string) string {
+	if !strings.HasSuffix(s, "'") && !enrichedLogin {
+		return s
+	}
 	switch g.r.Intn(3) {
 	case 0:
 		return s + "\x1dUID=\"root\" AUID=\"" + g.acct + "\""
 	case 1:
-		if strings.HasSuffix(s, "'") {
-			return s + "UID=\"root\" AUID=\"" + g.acct + "\"" // without the separator, as in the repository's test data
-		}
+		return s + "UID=\"root\" AUID=\"" + g.acct + "\"" // without the separator, as in the repository's test data
 	}
 	return s
 }
@@ -238,7 +245,7 @@ func (g *gen) simple(typ string, noise bool) Group {
 	gr := g.next("simple", typ)
 	gr.Ses = g.pickSes(noise)
 	gr.Res, gr.Success = g.resUser()
-	if g.r.Chance(1, 30) {
+	if typ != "LOGIN" && g.r.Chance(1, 30) { // (a LOGIN record always carries res=)
 		gr.Res, gr.Success = "", false
 	}
 	res := ""
